@@ -466,6 +466,28 @@ func main() {
 				scs = append(scs, scenario(history{Format: "xml", Procs: 1, K: k, HeaderAt: -1, Stop: stop, Post: "SECSE"}, 3))
 			}
 		}
+		// family P: decoder counts around the channel-capacity steps (10/n), one history per stop kind, D=1;
+		// family W: switch mode (one context switch to any enabled thread costs 1) for procs 2
+		for _, p := range []int{3, 4, 10, 11} {
+			for stop := 0; stop < 5; stop++ {
+				k := 3
+				if stop == stopCancelOther {
+					k = 0
+				}
+				scs = append(scs, scenario(history{Format: "pbf", Procs: p, K: k, HeaderAt: -1, Stop: stop, Post: "SE"}, 1))
+			}
+		}
+		for stop := 0; stop < 5; stop++ {
+			k := 3
+			if stop == stopCancelOther {
+				k = 0
+			}
+			sc := scenario(history{Format: "pbf", Procs: 2, K: k, HeaderAt: -1, Stop: stop, Post: "SEC"}, 1)
+			sc.SwitchMode = true
+			sc.Name += " switch-mode"
+			sc.Family += " switch-mode"
+			scs = append(scs, sc)
+		}
 		// family E: an error recorded before the stop stays the answer of Err
 		for _, p := range []int{1, 2} {
 			for stop := 0; stop < 5; stop++ {
